@@ -100,6 +100,7 @@ type frame struct {
 	results []SType
 	loopOrd map[*ssa.BasicBlock]int
 	curIdx  int
+	splits  int
 	iterOf  map[ssa.Value]*mapIter
 }
 
@@ -471,6 +472,8 @@ type edgeIn struct {
 	cond Term
 	st   *State
 	from *ssa.BasicBlock
+	to   *ssa.BasicBlock
+	phis map[*ssa.Phi]Value // values of the target's phis along this edge, captured when the edge is taken
 }
 
 type retRec struct {
@@ -692,12 +695,26 @@ func predIndex(b, from *ssa.BasicBlock) int {
 }
 
 func (vc *VC) flow(fr *frame, from, to *ssa.BasicBlock, st *State, cond Term, incoming map[*ssa.BasicBlock][]edgeIn) {
-	cond = vc.script.Define(fmt.Sprintf("edge:b%d-b%d", from.Index, to.Index), cond)
 	if isBackEdge(from, to) {
+		cond = vc.script.Define(fmt.Sprintf("edge:b%d-b%d", from.Index, to.Index), cond)
 		vc.loopBackEdge(fr, from, to, &State{pc: cond, heap: st.heap})
 		return
 	}
-	incoming[to] = append(incoming[to], edgeIn{cond: cond, st: &State{pc: cond, heap: st.heap.Clone()}, from: from})
+	incoming[to] = append(incoming[to], vc.mkEdge(fr, from, to, st, cond))
+}
+
+func (vc *VC) mkEdge(fr *frame, from, to *ssa.BasicBlock, st *State, cond Term) edgeIn {
+	cond = vc.script.Define(fmt.Sprintf("edge:b%d-b%d", from.Index, to.Index), cond)
+	e := edgeIn{cond: cond, st: &State{pc: cond, heap: st.heap.Clone()}, from: from, to: to, phis: map[*ssa.Phi]Value{}}
+	pi := predIndex(to, from)
+	for _, instr := range to.Instrs {
+		phi, ok := instr.(*ssa.Phi)
+		if !ok {
+			break
+		}
+		e.phis[phi] = vc.valueOf(fr, phi.Edges[pi])
+	}
+	return e
 }
 
 func (vc *VC) posString(p token.Pos) string {
